@@ -1,6 +1,7 @@
 package main
 
 import (
+	"fmt"
 	"strings"
 
 	"golang.org/x/tools/go/ssa"
@@ -64,6 +65,9 @@ func init() {
 
 			a.counterStoreGate("G.counter-store", auth)
 
+			a.keyMaterialGate("G.key-material", a.MustFn("(*Conversation).processDataMessageWithRawErrors"), full)
+			a.unsignedCacheWriters("W.unsigned-cache")
+			a.plaintextFlagTable("P.unencrypted-flag")
 			a.checkSignPolarity()
 			a.pickKeysTable()
 		})
@@ -308,5 +312,115 @@ func (a *An) counterStoreGate(rule string, auth []string) {
 			a.Gate(rule, ordinalKey(fn+"|store theirCounter", cnt), st, "store of the peer's counter", auth...)
 		}
 		a.R.Floor(rule, len(auth))
+	}
+}
+
+// effectGate: inside fn, every instruction that writes key material of the session is behind the gate.
+func (a *An) keyMaterialGate(rule string, fn *ssa.Function, required []string) {
+	if fn == nil {
+		return
+	}
+	prot := []string{"Conversation.keys.ourKeyID", "Conversation.keys.theirKeyID", "Conversation.keys.ourCurrentDHKeys", "Conversation.keys.ourPreviousDHKeys",
+		"Conversation.keys.theirCurrentDHPubKey", "Conversation.keys.theirPreviousDHPubKey", "Conversation.keys.oldMACKeys", "Conversation.msgState", "Conversation.smp", "Conversation.ake", "Conversation.keys"}
+	cnt := map[string]int{}
+	n := 0
+	for _, b := range fn.Blocks {
+		for _, in := range b.Instrs {
+			hit := ""
+			for _, ef := range a.E.InstrEffects(in) {
+				abs := a.C.abs(fn, ef.Path)
+				for _, p := range prot {
+					if abs == p || strings.HasPrefix(abs, p+".") || strings.HasPrefix(abs, p+"[") {
+						if p == "Conversation.keys" && abs != p {
+							continue
+						}
+						hit = p
+					}
+				}
+			}
+			if hit == "" {
+				continue
+			}
+			n++
+			what := "write to " + hit
+			desc := "store"
+			if call, ok := in.(ssa.CallInstruction); ok {
+				desc = "call " + a.F.callName(call)
+			}
+			a.Gate(rule, ordinalKey(a.C.Name(fn)+"|"+desc+"|"+hit, cnt), in, what+" while processing a data message", required...)
+		}
+	}
+	a.R.Check(n >= 2, rule, a.C.Name(fn)+"|sites", "key-material writes found on the data path", a.C.Pos(fn.Pos()), fmt.Sprintf("%d", n))
+}
+
+// unsignedCacheWriters: on the receiving side the MAC'd bytes are only ever the received prefix.
+func (a *An) unsignedCacheWriters(rule string) {
+	fld := a.MustField("dataMsg", "serializeUnsignedCache")
+	if fld == nil {
+		return
+	}
+	for _, st := range a.DirectStoresTo(fld) {
+		fn := a.C.Name(st.Parent())
+		t := a.C.Term(st.Val)
+		switch {
+		case strings.Contains(fn, "deserialize"):
+			okT := strings.HasPrefix(t, "$msg[:(len($msg) - len(") && strings.HasSuffix(t, "))]")
+			a.R.Check(okT, rule, fn+"|cache", "a parser records exactly the received bytes msg[:len(msg)-len(rest)] as the MAC input", a.C.InstrPos(st), "stores "+t)
+		case fn == "(*dataMsg).sign" || fn == "(dataMsg).serialize":
+			a.R.Check(strings.Contains(t, "serializeUnsigned("), rule, fn+"|cache", "the sender caches its own serialisation", a.C.InstrPos(st), "stores "+t)
+		default:
+			a.R.Viol(rule, fn+"|cache", "the cached unsigned bytes are written only by the parser and the signer", a.C.InstrPos(st), fn+" stores "+t)
+		}
+	}
+}
+
+// plaintextFlagTable: text received unencrypted is flagged whenever the conversation is not in plaintext
+// state or encryption is required, whatever the whitespace-tag state.
+func (a *An) plaintextFlagTable(rule string) {
+	fn := a.MustFn("(*Conversation).checkPlaintextPolicies")
+	if fn == nil {
+		return
+	}
+	req := a.MustConst("requireEncryption")
+	ev := a.MustConst("MessageEventReceivedMessageUnencrypted")
+	for ws := int64(0); ws < 3; ws++ {
+		for ms := int64(0); ms < 3; ms++ {
+			for _, r := range []bool{false, true} {
+				want := ms != 0 || r
+				bools := map[string]bool{"(*policies).has(&Conversation.Policies, " + req + ")": r}
+				paths, complete := a.C.Paths(fn, a.C.valOracle(valCase{"Conversation.whitespaceState": ws, "Conversation.msgState": ms}, bools), 64)
+				key := fmt.Sprintf("checkPlaintextPolicies|whitespaceState=%d,msgState=%d,requireEncryption=%v", ws, ms, r)
+				if !complete || len(paths) == 0 {
+					a.R.Undec(rule, key, "enumerate paths", a.C.Pos(fn.Pos()), "incomplete")
+					continue
+				}
+				ok, detail := true, ""
+				for _, p := range paths {
+					flagged := false
+					for _, in := range p.Instrs {
+						if call, isCall := in.(*ssa.Call); isCall && a.F.callName(call) == "(*Conversation).messageEventWithMessage" {
+							if a.C.Term(call.Call.Args[1]) == ev && a.C.Term(call.Call.Args[2]) == "$plain" {
+								flagged = true
+							}
+						}
+					}
+					if flagged != want {
+						ok, detail = false, fmt.Sprintf("flagged=%v, specified %v (decisions %s)", flagged, want, decisionsStr(p))
+					}
+				}
+				a.R.Check(ok, rule, key, fmt.Sprintf("received-unencrypted event raised = %v", want), a.C.Pos(fn.Pos()), detail)
+			}
+		}
+	}
+	a.R.Floor(rule, 18)
+	for _, name := range []string{"(*Conversation).receivePlaintext", "(*Conversation).receiveTaggedPlaintext"} {
+		f := a.MustFn(name)
+		if c := a.uniqueCall(rule, f, "(*Conversation).checkPlaintextPolicies"); c != nil {
+			for _, r := range a.returnsOf(f) {
+				a.R.Check(instrDominates(c, r), rule, name+"|flag-before-return", "every return of unencrypted text passes the policy check", a.C.InstrPos(r), "a return is not dominated by checkPlaintextPolicies")
+				same := a.C.Term(r.Results[0]) == a.C.Term(c.Call.Args[1])
+				a.R.Check(same, rule, name+"|flag-same-text", "the text that is flagged is the text that is returned", a.C.InstrPos(r), "returns "+a.C.Term(r.Results[0])+", flags "+a.C.Term(c.Call.Args[1]))
+			}
+		}
 	}
 }
